@@ -32,7 +32,7 @@ def run(ctx):
                 're-imported keys, deletion of everything) under AddressSanitizer + LeakSanitizer + UBSan(bounds, null, alignment, object-size, pointer-overflow), each configuration in its own process AND all of them one '
                 'after the other in one process in ascending then descending order of n (state kept between key sets); valgrind memcheck (inline assembly is invisible to ASan) on the AVX2 build for LWE operations at '
                 'n = 1..13 and small-n lifecycles; allocator interposed: block sizes requested by new_<type> against the extracted ledger model for 15 types, nothing live after delete_<type> nor after a whole lifecycle '
-                '(collector finalised); heap growth over 200 thread create / FFT product / exit cycles on every back-end. distinct = distinct (tool, configuration)')
+                '(collector finalised); Karatsuba_aux on exact-size workspace blocks (size from the extracted model, high-water mark compared); heap growth over 200 thread create / FFT product / exit cycles on every back-end. distinct = distinct (tool, configuration)')
     ctx.assumptions = ['partial: uninitialised reads, use-after-free and real heap behaviour are observed by the tools on the configurations run, not proved; the model covers index arithmetic and allocation bookkeeping',
                        'UBSan checks for signed overflow and shifts are off: the library relies on two\'s-complement wrap-around of int32 arithmetic throughout (C13, C14 model it explicitly)',
                        'key-switching keys above 600 MB are skipped in the thorough matrix (sandbox memory)']
@@ -67,6 +67,25 @@ def run(ctx):
     lines = [life_line(c, i % 2) for i, c in enumerate(seq)]
     rc, out, err = run_san(aexe, lines, env, 7200)
     judge('ASan/LSan/UBSan, %d key sets one after the other in one process (n = %s)' % (len(seq), [c[1] for c in seq]), 'sequence', rc, out, err, {'tool': 'asan', 'lines': lines})
+    # Karatsuba workspace: the routine runs on exact-size heap blocks of the size the model predicts (ASan redzones right behind),
+    # its highest written byte must be the model's high-water mark, guard words behind R and behind the workspace survive
+    ksizes = [1, 2, 4, 8, 16, 32, 64, 128, 256, 512, 1024, 2048] + ([4096, 12, 20, 24, 36, 40, 48, 72, 96, 136, 200] if thorough else [12, 24, 40])
+    km = vlib.run_model(['karamem %d' % z for z in ksizes], 'fast')
+    klines = []; kexp = []
+    for z, m in zip(ksizes, km):
+        u, w, ok = [int(x) for x in m.split()]
+        klines.append('karamem %d %d %d %d' % (z, 6, sd + z, u)); kexp.append((z, u, w, ok))
+    rc, out, err = run_san(aexe, klines, env, 3600)
+    if judge('ASan, Karatsuba_aux on exact-size workspace', 'sizes %s' % ksizes, rc, out, err, {'tool': 'asan', 'lines': klines}):
+        for (z, u, w, ok), o in zip(kexp, out.strip().split('\n')):
+            t = o.split(); ctx.count(('karamem', z))
+            if len(t) < 4 or t[0] != 'ok': ctx.report('karatsuba-workspace', 'Karatsuba_aux size %d: no answer (%s)' % (z, o[:60]), {'tool': 'asan', 'lines': klines}); continue
+            hw, guards, right = int(t[1]), int(t[2]), int(t[3])
+            if not guards: ctx.report('karatsuba-workspace', 'Karatsuba_aux size %d writes behind the %d bytes of workspace the model computes or behind the 2*size-1 result words' % (z, u), {'tool': 'asan', 'lines': klines})
+            elif hw != max(w, 0):
+                ctx.soft('correspondence:karatsuba-workspace', 'Karatsuba_aux size %d: highest written workspace byte is %d, the model says %d (of %d)' % (z, hw, w, u), {'tool': 'asan', 'lines': klines, 'size': z, 'impl': hw, 'model': w})
+            if not right and ok: ctx.report('karatsuba-workspace', 'Karatsuba_aux size %d: result differs from the schoolbook product' % z, {'tool': 'asan', 'lines': klines})
+            if u > 16 * z: ctx.report('karatsuba-workspace', 'model workspace %d exceeds 16*size for size %d' % (u, z), {'size': z})
     # ---- B: memcheck on the AVX2 build (assembly paths)
     vlibd = vlib.build_lib('vg'); vexe = vlib.build_harness('mem_drv.cpp', vlibd, 'spqlios-fma', 'vg')
     vjobs = [['small %d' % n for n in range(1, 14)] + ['small 500', 'small 1023'], [life_line((0, 3, 1, 2, 10, 8, 2), 1)], [life_line((0, 7, 2, 3, 7, 8, 2), 0)], [life_line((0, 8, 1, 16, 2, 4, 4), 1), life_line((0, 1, 1, 1, 16, 2, 2), 0)]]
